@@ -7,16 +7,16 @@ EMIR = "symbolic execution of rustc MIR into z3 bit-vector formulas (mirsym), so
 
 checks = {
  "C04": dict(cat="model_checking",
-   text="Label scoping pass: src/alpha/scoper/label_references.rs (Analyzable for FunctionBody/Block/Statement, declare_label, use_label, push_scope, pop_scope) is symbolically executed from MIR on a symbolic function body - statement trees of depth <= 3 with up to 2 (thorough 3) statements per body/block, symbolic lengths and symbolic label names - and z3 decides that the output tree is what the rule prescribes node by node: a goto resolves iff a label of that name is later in the same block or later in an enclosing block (E400 otherwise: backward jumps, jumps into nested or sibling blocks, missing labels), a label clashing with such a later label is E420, nothing else changes, and the scope stack is balanced.",
+   text="Label scoping pass: src/alpha/scoper/label_references.rs (Analyzable for FunctionBody/Block/Statement, declare_label, use_label, push_scope, pop_scope) is symbolically executed from MIR on a symbolic function body - statement trees of depth <= 3 with up to 2 (thorough 3) statements per body/block, symbolic lengths and symbolic label names - and z3 decides that the output tree is what the rule prescribes node by node: a goto resolves iff a label of that name is later in the same block or later in an enclosing block (E400 otherwise: backward jumps, jumps into nested or sibling blocks, missing labels), a label clashing with such a later label is E420, nothing else changes; the pass never panics. The pass is entered through its own entry point label_references::analyze, so the Analyzer is the one the code constructs.",
    note="Bounded by depth and width; one function body. Inputs restricted to bodies whose if-branches are goto/block (else also if) without poisoned statements. Trusted: MIR dump, mirsym + models (owned reversed Vec iteration, nested Vec as label stack, slice::Iter::find, String equality on opaque tokens); encoding validated natively (guarded hook) on random bodies every run.",
    ref="DESIGN.md section 3, C04"),
  "C06": dict(cat="model_checking",
    text="Placement rules of the syntax pass: src/alpha/analyzer/syntax.rs (Analyzable for FunctionBody, Block, Statement and their closures) is symbolically executed from MIR on a symbolic function body - statement trees of nesting depth <= 4 (thorough 5) with up to 2 (3) statements per body/block and symbolic lengths, all nine statement kinds, every if/else shape - and z3 decides that the output tree equals what the documented rules prescribe node by node: loop only as final statement of a braced block (E800 elsewhere in a block, E801 in a function body), if-branches goto or braced block, else also another if (E840), nothing else changes; the pass never panics.",
-   note="Bounded by nesting depth and block width. Outside: the L1800 lint and the generator's assumption. Trusted: MIR dump, mirsym + models for owned Vec iteration (into_iter/map/collect, pop, push), Box, Option::map; the encoding is validated natively (guarded hook) on random statement trees every run.",
+   note="Bounded by nesting depth and block width. Also decided: linter.rs emits exactly one L1800 per braced branch that starts with loop and no other statement lint (depth 3 x width 2, depth 4 x width 1). Outside: the generator's assumption. Trusted: MIR dump, mirsym + models for owned Vec iteration (into_iter/map/collect, pop, push), Box, Option::map; the encoding is validated natively (guarded hook) on random statement trees every run.",
    ref="DESIGN.md section 3, C06"),
  "C07": dict(cat="model_checking",
-   text="Relations-and-tables clause: the eight type relations of value_type.rs that decide which operand, argument and declaration types match (identity, implicit coercions, address coercions, autoderef, declaration matching, concretization) are symbolically executed from MIR and proved equal to a reference model for every pair of types of nesting depth <= 3 (quick) / 5 (thorough), plus algebraic consequences (no relation connects distinct primitives, coercions only have the documented shapes, identity is reflexive and symmetric).",
-   note="Bounded by type nesting depth; lengths and names unconstrained. Trusted: MIR dump, mirsym + std models (validated natively on sampled pairs every run), the reference model vtref.py. Outside: the typer/resolver code that applies these relations to real expressions.",
+   text="Relations-and-tables clause: the eight type relations of value_type.rs that decide which operand, argument and declaration types match (identity, implicit coercions, address coercions, autoderef, declaration matching, concretization) are symbolically executed from MIR and proved equal to a reference model for every pair of types of nesting depth <= 3 (quick) / 5 (thorough), plus algebraic consequences (no relation connects distinct primitives, coercions only have the documented shapes, identity is reflexive and symmetric); resolver.rs: is_valid_primitive_conversion, is_valid_bit_cast, and for a symbolic operator the valid_types tables with analyze_operand_type (too permissive / too strict / no panic) for every operand type of depth <= 2; match_type_of_operands accepts exactly identical operand types for every pair of depth <= 2.",
+   note="Bounded by type nesting depth; lengths and names unconstrained. Trusted: MIR dump, mirsym + std models (validated natively on sampled pairs every run), the reference model vtref.py. Outside: put_symbol / use_function and the typer code that applies these relations to real expressions.",
    ref="DESIGN.md section 3, C07"),
  "C08": dict(cat="model_checking",
    text="Rule-kernel clause: mutability::needs_outer_mutability is symbolically executed from MIR over a Reference whose step vector holds up to 4 (quick) / 7 (thorough) symbolic access steps with symbolic length; z3 decides that the base variable must be mutable exactly when the reference does not pass through a pointer (no autoderef step and no deslice-by-pointer), which together with the mutability bit is the E530 verdict table.",
@@ -27,20 +27,20 @@ checks = {
    note="Outside: expand() (import path resolution, splice order), multi-file behaviour of compiled programs. Trusted: MIR dump, mirsym + models (EnumSet as bit set, derived Clone as identity, Option::map); the encoding is validated natively (guarded hook) on all 6 x 32 kind/flag combinations on every run.",
    ref="DESIGN.md section 3, C12"),
  "C09": dict(cat="model_checking",
-   text="Lexed-value clause: for 15 boundary literal templates (largest decimal decade, 32 hex digits, 128 binary digits, every suffix stem, hex/unicode/simple escapes, unclosed and two-character char literals) completed by 2-4 arbitrary bytes, the real second-generation lexer and an independent reference lexer are both executed symbolically and z3 decides that kind, suffix type, 128-bit value and error code (E140, E141, E160-E163) agree for every completion; no overflow panic is reachable.",
-   note="Bounded to the templates (prefix + 2..4 symbolic bytes, lengths up to 131). Outside: first-generation lexing, unary-minus folding, the L1142 range lint, run-time values in IR. Trusted: MIR dumps, mirsym + models (both encodings re-validated against the native lexers on sampled inputs every run), the reference lexer reflex/src/lib.rs (natively diffed against the real lexer on the repository corpus).",
+   text="Lexed-value clause: for 15 boundary literal templates (largest decimal decade, 32 hex digits, 128 binary digits, every suffix stem, hex/unicode/simple escapes, unclosed and two-character char literals) completed by 2-4 arbitrary bytes, the real second-generation lexer and an independent reference lexer are both executed symbolically and z3 decides that kind, suffix type, 128-bit value and error code (E140, E141, E160-E163) agree for every completion; no overflow panic is reachable. Range-lint clause: min_i128/max_u128 equal the integer ranges and the literal arms of the linter emit exactly one L1142 iff the 128-bit value is outside the range of the resolved type, for every value x type.",
+   note="Bounded to the templates (prefix + 2..4 symbolic bytes, lengths up to 131). Outside: first-generation lexing, unary-minus folding in the parser, run-time values in IR. Trusted: MIR dumps, mirsym + models (both encodings re-validated against the native lexers on sampled inputs every run), the reference lexer reflex/src/lib.rs (natively diffed against the real lexer on the repository corpus).",
    ref="DESIGN.md section 3, C09"),
  "C14": dict(cat="model_checking",
    text="Second-generation lexer vs. the documented lexical grammar: for EVERY byte string of length 1..4 (quick; 1..5 thorough; 4.3e9 / 1.1e12 inputs) and for templates crossing comments, CRLF, keyword/type/builtin tails, the real lexer (MIR of /repo) and an independent reference lexer (MIR of /verif/reflex) are symbolically executed on the same symbolic bytes and one solver query per observable (token count, kind, value type, payload, span start/end, line start, line number, error list) must be unsat.",
    note="Bounded by input length (templates). The first-generation lexer and therefore the 'two lexers agree' sentence are outside. Trusted as for C09.",
    ref="DESIGN.md section 3, C14"),
  "C15": dict(cat="model_checking",
-   text="Lexer half: every assert terminator (arithmetic overflow, slice/array index), modelled unwrap/expect/panic and `unreachable` reachable from lex_source_into_buffer, including the real TokensBuffer::push/push_token/push_error/push_integer_payload code, is an obligation that z3 shows unsatisfiable for every byte string of length 1..4 (5 thorough) and for boundary templates up to 131 bytes (last decimal decade, 32 hex digits, 128 binary digits, unicode/hex escapes, dense errors); loop unrolling bounds carry unwinding obligations; the result is always Ok.",
-   note="Bounded by the templates. Outside: the second-generation parser, build_header, XML dumps, E102/E103, Tokens::empty/set_tokens_len (buffers are modelled as fixed arrays), uninitialised reads as such.",
+   text="Lexer half: every assert terminator (arithmetic overflow, slice/array index), modelled unwrap/expect/panic and `unreachable` reachable from lex_source_into_buffer, including the real TokensBuffer::push/push_token/push_error/push_integer_payload code, is an obligation that z3 shows unsatisfiable for every byte string of length 1..4 (5 thorough) and for boundary templates up to 131 bytes (last decimal decade, 32 hex digits, 128 binary digits, unicode/hex escapes, dense errors); loop unrolling bounds carry unwinding obligations; the result is always Ok. Entry scenario: the public lex() (Tokens::empty, buffer, set_tokens_len) from the MIR built with verif_small_buffers, with a heap model of Vec::with_capacity/spare_capacity_mut/set_len: set_len stays within the capacity and exposes only written slots, for all strings of length <= 3 (4) and templates crossing the token capacity (capacity-1, capacity, E103 path); the token list ends in EndOfSource.",
+   note="Bounded by the templates. Outside: the second-generation parser, build_header, XML dumps, sources above the real buffer floors (65536 tokens), pointer provenance/alignment.",
    ref="DESIGN.md section 3, C15"),
  "C11": dict(cat="model_checking",
-   text="Type-legality clause: is_wellformed and the can_be_{variable,constant,parameter,returned,struct_member,word_member,sized} predicates are symbolically executed from MIR and proved equal to the documented rules (E350-E356) for every type of nesting depth <= 3 (quick) / 6 (thorough), with the documented consequences (legal implies well-formed, void only as return type, word member sizes).",
-   note="Bounded by type nesting depth. Outside: declaration order independence, duplicate and cycle detection (E413-E426), E358, E380, E433.",
+   text="Type-legality clause: is_wellformed and the can_be_{variable,constant,parameter,returned,struct_member,word_member,sized} predicates are symbolically executed from MIR and proved equal to the documented rules (E350-E356) for every type of nesting depth <= 3 (quick) / 6 (thorough), with the documented consequences (legal implies well-formed, void only as return type, word member sizes). Containment clause: Analyzer::found_container/found_container_1 and determine_container_depths (scoper/variable_references.rs) executed from MIR as ONE step from an ARBITRARY analyzer state of up to 3 (thorough 4) containers with symbolic ids, kinds and HashSet<u32> contents, constrained only by the representation invariant (distinct ids, contained ids declared, irreflexive, transitively closed), on a symbolic contained type of depth <= 2 (3): the step is rejected iff the type names by value the container or something containing it (E413 for constants, E415/E416 for members), an accepted step records exactly the new reachability, preserves the invariant and returns the type unchanged; depths are 0 for empty containers and 1 + the deepest containee otherwise. The invariant holds initially and is preserved, so the clauses hold after error-free histories of any length.",
+   note="Bounded by type nesting depth, number of containers and an 8-bit id set. Outside: declaration order independence of whole programs, duplicate names (E421-E426), analyzer states after the first reported cycle, E358, E380, E433. Vacuity witnesses (must be sat) guard the containment premises.",
    ref="DESIGN.md section 3, C11"),
  "C13": dict(cat="model_checking",
    text="Code-catalogue clause only: Error::code is symbolically executed from MIR over a fully symbolic Error value and z3 decides, for all variants x lexical sub-errors, that the returned code has a heading in docs/errors.md (all counter-models enumerated). Loop-free, so no bound is needed, but the claim covers only this clause of C13.",
@@ -51,9 +51,9 @@ na = {
  "C01":"observable is stdout/exit status of lli running IR built through ~100 LLVM-C FFI calls; no solver-reachable encoding of LLVM's semantics exists in this image",
  "C02":"quantifies over the whole first-generation pipeline plus an aborting LLVM verifier; the encodable slice (second-generation lexer totality) is claimed under C15",
  "C03":"the code under test is LLVM's own assembler/verifier/linker behind FFI",
- "C05":"as C04 plus HashMap/HashSet state and the full expression AST",
+ "C05":"variable_references.rs keeps HashMap/HashSet state keyed by resolution ids across gotos and walks the full expression AST; only its containment slice was reached (claimed under C11)",
  "C10":"both evaluators (constant folder and interpreter) are LLVM",
- "C16":"the recursive-descent parser explodes in CBMC as soon as one token is symbolic (measured); not yet attempted with the MIR executor",
+ "C16":"the recursive-descent parser explodes in CBMC as soon as one token is symbolic (measured); with the MIR executor lex()+parse() run in <1 s on concrete inputs but did not finish in 15-18 min with one symbolic byte (time-boxed, abandoned)",
  "C17":"as C16",
  "C18":"process exit status, files and rendered diagnostics are OS-level behaviour; get_backend drags anyhow/backtrace drop glue (measured 10 GB)",
  "C19":"every spelling goes through rand distributions (f64 Bernoulli, wide multiply) and core::fmt",
